@@ -137,6 +137,7 @@ struct G<'a> {
     w: &'a mut dyn Write,
     seq: u8,
     last: Option<(u16, u16, Vec<u8>)>,
+    last_note: Option<String>,
     last_select: Option<(u8, Vec<u8>)>,
     cfg_ctimeout: u64,
     cfg_stimeout: u64,
@@ -324,11 +325,14 @@ impl<'a> G<'a> {
                 // malformed objects under a function that takes objects
                 f.push(*self.r.pick(&[1u8, 2, 3, 4, 5, 6, 7, 20, 21]));
                 f.extend(malformed_objects(&mut self.r));
-                note = Some("@reject".into());
+                note = Some("@reject malformed".into());
             }
         }
-        if let Some(n) = note {
-            self.line(&n);
+        if let Some(n) = &note {
+            self.line(n);
+        }
+        if dst == OUTSTATION && !f.is_empty() {
+            self.last_note = note.clone();
         }
         self.rx(src, dst, f);
     }
@@ -337,6 +341,9 @@ impl<'a> G<'a> {
         if let Some((src, dst, f)) = self.last.clone() {
             let n = if self.r.chance(4, 5) { 1 } else { 2 };
             for _ in 0..n {
+                if let Some(note) = self.last_note.clone() {
+                    self.line(&note);
+                }
                 self.line(&format!("rx {} {} {}", src, dst, hex(&f)));
             }
         } else {
@@ -435,7 +442,7 @@ pub fn gen(thorough: bool, seed: u64, w: &mut dyn Write, gc: GenCfg) {
         writeln!(w, "{cfg}").unwrap();
         let with_db = gc.with_db;
         let mut g = G {
-            r, w, seq: 0, last: None, last_select: None, cfg_ctimeout: ct, cfg_stimeout: st, cfg_rdelay: rd,
+            r, w, seq: 0, last: None, last_note: None, last_select: None, cfg_ctimeout: ct, cfg_stimeout: st, cfg_rdelay: rd,
             cfg_keepalive: ka, gc: GenCfg { with_db }, next_time: 1000, points: Vec::new(),
         };
         g.seq = g.r.below(16) as u8;
